@@ -20,12 +20,14 @@ structure St where
   decl : Key → Option (Option Val) := fun _ => none   -- none = undeclared; some d = declared, default d
   loaded : Key → Option Val := fun _ => none
   flags : Key → Option Val := fun _ => none
+  file : Option (List (Key × Val)) := none            -- the mapping in the file given with --config-file, if any
 
 inductive Op where
   | declare (k : Key) (d : Option Val)
   | load (kvs : List (Key × Val)) (override allowUndeclared : Bool)   -- load / load_from_dict / load_from_file
   | flagValues (kvs : List (Key × Val))                                  -- load_flag_values(Namespace)
   | reset
+  | configFile (kvs : List (Key × Val))                                   -- the process was started with --config-file
   | setattr (k : Key) (v : Val)
   | saveRestore (cfg : List (Key × Val)) (inner : List Op) (raises : Bool)
 
@@ -65,7 +67,13 @@ def step (ki : KeyInfo) (s : St) : Op → St × List (OpRes × St)
       (s', [(.ok, s')])
   | .load kvs o a => let s' := loadDict s kvs o a; (s', [(.ok, s')])
   | .flagValues kvs => let s' := kvs.foldl flagOne s; (s', [(.ok, s')])
-  | .reset => let s' := { s with loaded := fun _ => none }; (s', [(.ok, s')])
+  | .reset =>
+    -- the loaded values are dropped, then those of --config-file (undeclared keys included) are loaded again - on
+    -- every call (after the `fix:` commit the file is rewound first)
+    let s0 := { s with loaded := fun _ => none }
+    let s' := match s.file with | none => s0 | some kvs => loadDict s0 kvs true true
+    (s', [(.ok, s')])
+  | .configFile kvs => let s' := { s with file := some kvs }; (s', [(.ok, s')])
   | .setattr _ _ => (s, [(.attributeError, s)])
   | .saveRestore cfg inner raises =>
     let s1 := loadDict s cfg true false
